@@ -13,12 +13,12 @@ from .common import DT, PU, ckey
 
 P = "C09"
 EXPLANATION = (
-    "Static rules D9.1-D9.6 (DESIGN.md section 5, C09): segment type / logical type / logical format bit tables against CIP "
+    "Static rules D9.1-D9.7 (DESIGN.md section 5, C09): segment type / logical type / logical format bit tables against CIP "
     "Vol.1 App. C-1.4 (spec/epath.json) incl. disjointness of the bit fields; the value->width dispatch of logical segments "
     "(thresholds 2^(8w)-1 ascending, out of range raises); pad-parity rules of logical, symbolic and port segments and the word "
     "count prefix of the padded EPATH; that every literal segment kind used at a construction site exists in its table; the "
     "construction order of tag paths (symbol-instance addressing condition as a truth table, index and member segments in "
-    "order) and of class/instance/attribute paths; the port segment layout with the extended-link bit. The oracle is the CIP "
+    "order) and of class/instance/attribute paths; the port segment layout with the extended-link bit and the confinement of port numbers to the 4-bit port field. The oracle is the CIP "
     "specification table, so a wrong reserved bit pattern is visible although the library never decodes paths."
 )
 ASSUMPTIONS = ["tag strings are well-formed (string parsing of _find_tag_index is value-level and not decided)"]
